@@ -1,6 +1,7 @@
 package absint
 
 import (
+	"math"
 	"fmt"
 	"go/constant"
 	"go/token"
@@ -107,6 +108,7 @@ type Interp struct {
 	Hashes       []*HashObj
 	LeafCalls    int
 	FuncsEntered map[*ssa.Function]int
+	symIdx map[string]*Cell
 	inputs       map[string]*Object
 	nreads       int
 	inputRoots   []*Cell
@@ -114,6 +116,7 @@ type Interp struct {
 	loopIter     map[*ssa.BasicBlock]int
 	InitEvents   []Event
 	InitHashes   int
+	pendingBinds []Value
 	bigVals      map[*Cell]*Term
 }
 
@@ -347,6 +350,12 @@ func (it *Interp) callFn(fn *ssa.Function, args []Value, inLoop bool) Value {
 	for i, p := range fn.Params {
 		fr.regs[p] = args[i]
 	}
+	for i, fv := range fn.FreeVars {
+		if i < len(it.pendingBinds) {
+			fr.regs[fv] = it.pendingBinds[i]
+		}
+	}
+	it.pendingBinds = nil
 	r := fr.exec(fn.Blocks[0], nil, nil, false)
 	return r.ret
 }
@@ -525,6 +534,33 @@ func (fr *Frame) branch(blk *ssa.BasicBlock, x *ssa.If, stop *ssa.BasicBlock) (e
 		o.pos++
 		it.Guards = append(it.Guards, Guard{Cond: p, Taken: taken, Fn: fr.fn, Pos: ifPos(x)})
 		it.assumeTerm(p, taken)
+		// a condition that amounts to "sym is one of v1..vk" is split by value (one path per value)
+		eff := it.ApplyTerm(p)
+		if !taken {
+			eff = TInt(1).Sub(eff)
+		}
+		if alts := valueAlternatives(eff); len(alts) >= 2 {
+			chosen := false
+			for _, a := range alts[:len(alts)-1] {
+				var d bool
+				if o.pos < len(o.dec) {
+					d = o.dec[o.pos]
+				} else {
+					d = true
+					o.dec = append(o.dec, true)
+				}
+				o.pos++
+				it.Guards = append(it.Guards, Guard{Cond: TPred(a), Taken: d, Fn: fr.fn, Pos: ifPos(x)})
+				it.assumeAtom(a, d)
+				if d {
+					chosen = true
+					break
+				}
+			}
+			if !chosen {
+				it.assumeAtom(alts[len(alts)-1], true)
+			}
+		}
 		return pick(taken)
 	}
 	r := fr.join(blk, x, cond, stop)
@@ -851,7 +887,11 @@ func (it *Interp) assumeTerm(p *Term, v bool) {
 		for i, a := range atoms {
 			as[a] = mask>>i&1 == 1
 		}
-		if (p.evalPure(as).Sign() != 0) != v {
+		ev := p.evalPure(as)
+		if ev.Sign() != 0 && ev.Cmp(bigOne) != 0 {
+			continue // p is a truth value: an assignment under which it is neither 0 nor 1 is infeasible
+		}
+		if (ev.Sign() != 0) != v {
 			continue
 		}
 		for i := range atoms {
@@ -899,6 +939,16 @@ func (it *Interp) assumeAtom(a *PAtom, v bool) {
 					val = new(big.Int).Set(k)
 				}
 				it.bind[at] = TConst(val)
+				// the empty string is valid hexadecimal for the empty byte string
+				if n := at.Name; val.Sign() == 0 && strings.HasPrefix(n, "len(") && !strings.HasPrefix(n, "len(unhex(") {
+					x := n[4 : len(n)-1]
+					if ua := SymInt("len(unhex("+x+"))", bigZero, big.NewInt(math.MaxInt64)).SingleAtom(); ua != nil {
+						it.bind[ua] = TInt(0)
+					}
+					if hv := SymBool("hexvalid(" + x + ")").SinglePred(); hv != nil {
+						it.assume[hv] = true
+					}
+				}
 			}
 		}
 	}
@@ -936,6 +986,7 @@ func (it *Interp) assumeAtom(a *PAtom, v bool) {
 				base := BaseSym(at)
 				it.bind[at] = SymInt(fmt.Sprintf("%s∈[%s,%s]", base.Name, lo, cstr(hi)), lo, hi)
 				it.narrowOf(it.bind[at].SingleAtom(), at)
+				it.carryAssumptions(at)
 			}
 		}
 	}
@@ -977,7 +1028,63 @@ func (it *Interp) assumeAtom(a *PAtom, v bool) {
 			} else {
 				it.bind[at] = SymInt(fmt.Sprintf("%s∈[%s,%s]", base.Name, lo, cstr(hi)), lo, hi)
 				it.narrowOf(it.bind[at].SingleAtom(), at)
+				it.carryAssumptions(at)
 			}
+		}
+	}
+}
+
+// carryAssumptions re-states, for the atom that now stands for at, the comparisons already assumed about at
+// (a path that excluded len = 32 and then narrows len to [1,max] still excludes 32).
+func (it *Interp) carryAssumptions(at *IAtom) {
+	nb := it.bind[at]
+	if nb == nil {
+		return
+	}
+	re := func(t *Term) (*Term, bool) {
+		out := newTerm()
+		hit := false
+		for _, m := range t.mons {
+			if m.atom == at {
+				hit = true
+				for _, bm := range nb.mons {
+					out.addMon(new(big.Int).Mul(m.c, bm.c), mergePreds(m.preds, bm.preds), bm.atom)
+				}
+			} else {
+				out.addMon(m.c, m.preds, m.atom)
+			}
+		}
+		return out.norm(), hit
+	}
+	type kv struct {
+		p *PAtom
+		v bool
+	}
+	var add []kv
+	for p, v := range it.assume {
+		var q *Term
+		switch p.Kind {
+		case PEQZ:
+			if a, hit := re(p.A); hit {
+				q = EQZ(a)
+			}
+		case PLT:
+			a, h1 := re(p.A)
+			b, h2 := re(p.B)
+			if h1 || h2 {
+				q = LT(a, b)
+			}
+		}
+		if q == nil {
+			continue
+		}
+		if qa := q.SinglePred(); qa != nil {
+			add = append(add, kv{qa, v})
+		}
+	}
+	for _, e := range add {
+		if _, ok := it.assume[e.p]; !ok {
+			it.assume[e.p] = e.v
 		}
 	}
 }
@@ -1279,4 +1386,34 @@ func checkDeadline() {
 	if !Deadline.IsZero() && time.Now().After(Deadline) {
 		panic(&abort{"analysis time budget exceeded (the code does something the abstract domains cannot follow in bounded time, e.g. a data-dependent loop over field arithmetic)"})
 	}
+}
+
+
+// valueAlternatives recognises a 0/1 term [s = v1] + ... + [s = vk] over one symbol s (k >= 2).
+func valueAlternatives(t *Term) []*PAtom {
+	var alts []*PAtom
+	var sym *IAtom
+	for _, m := range t.sortedMons() {
+		if m.atom != nil || len(m.preds) != 1 || m.c.Cmp(bigOne) != 0 || m.preds[0].Kind != PEQZ {
+			return nil
+		}
+		var s *IAtom
+		for _, mm := range m.preds[0].A.mons {
+			if len(mm.preds) > 0 {
+				return nil
+			}
+			if mm.atom != nil {
+				if s != nil || mm.atom.Kind != ISym || mm.c.CmpAbs(bigOne) != 0 {
+					return nil
+				}
+				s = mm.atom
+			}
+		}
+		if s == nil || (sym != nil && s != sym) {
+			return nil
+		}
+		sym = s
+		alts = append(alts, m.preds[0])
+	}
+	return alts
 }
